@@ -20,7 +20,7 @@ P = {
   note="Trusted: Coq kernel+vm_compute; hand-written Index/Snap model tied by correspondence (tie H) on every run and G2 for the leaf functions; float predicates modelled by exact integer versions (checked envelope); search is not proof for the global clause. Known finding F5 attributed by mechanism.",
   tech=TECH + " (tie H + G2); exact-arithmetic search for the unproved global clause", ref="DESIGN.md 6 C01"),
  "C02": dict(
-  text="Full. For all segments, hot sets, depths and every tie: lineIntersects = 'closed segment meets half-open box' (over Q); findIntersectingQuadrants returns exactly the occupied children met, NoDup, in travel order (mutex and 'certain' shortcuts justified); by induction over levels the route is the NoDup list of occupied pixels met, strongly sorted by travel order, starting at the pixel of a and ending at the pixel of b, reversing with the segment — on any grid whose stored extent covers its pixels (FromTileMatrixSet-style grids qualify). C02_source_tie: containsPoint, getInfiniteQuadrant, the quadrantsToCheck table, oneIfRight/Top are regenerated from pointindex.go on every run and proved equal to the model. The polygon-level clause is decided by the exact correspondence and an independent exact-rational oracle.",
+  text="Full. For all segments, hot sets, depths and every tie: lineIntersects = 'closed segment meets half-open box' (over Q); findIntersectingQuadrants returns exactly the occupied children met, NoDup, in travel order (mutex and 'certain' shortcuts justified); by induction over levels the route is the NoDup list of occupied pixels met, strongly sorted by travel order, starting at the pixel of a and ending at the pixel of b, reversing with the segment — on any grid whose stored extent covers its pixels (FromTileMatrixSet-style grids qualify). C02_source_tie: containsPoint, getInfiniteQuadrant, the quadrantsToCheck table, oneIfRight/Top are regenerated from pointindex.go on every run and proved equal to the model. The polygon-level clause is a theorem of the model (C02_polygon_noncollapsing, C02_snapPolygon_noncollapsing; no routing or kmp premise left): when every routed-and-cleaned ring (chain) has at least three centres and non-zero area and no centre occurs twice in all chains together, snapLevel — and snapPolygon at every requested level — returns exactly the first chain written counter-clockwise as shell and the others written clockwise as holes (attached iff ringContains finds a vertex in or on the shell, otherwise shells of their own), reversed under the flag; without holes exactly [[chain]]; and the chain IS the concatenation of the routed edges, joints written once (C02_chain_is_concatenation_of_routed_edges). It is also held to the implementation by the exact correspondence and an independent exact-rational oracle.",
   note="Trusted: Coq kernel+vm_compute; Index model with (x,y) addresses instead of Morton keys (justified by C17); cmpProducts' 128-bit arithmetic (int64 negation with wrap-around, uint64 conversion, bits.Mul64 high/low words), leavesRoomBelow and lineIntersects are no longer trusted: regenerated from source on every run (gen/LineGen.v) and proved equal to the model's exact Z definitions (C02_source_tie_lineIntersects: cmpProducts for every int64 a, c incl. -2^63 and 0 < b, d < 2^63; lineIntersects for ordinates in [-2^62, 2^62)); hypothesis hs <> [] and the root-extent condition are explicit.",
   tech=TECH + " (tie G2 + H) + independent exact-rational oracle for replay witnesses", ref="DESIGN.md 6 C02"),
  "C03": dict(
@@ -32,7 +32,7 @@ P = {
   note="Trusted: as C01. Search is not proof for clause 3 and for clause 2 outside the class of C18. Known finding F5 attributed by mechanism.",
   tech=TECH + " (tie H + G2); exact-arithmetic search for clauses 2 (general) and 3", ref="DESIGN.md 6 C04"),
  "C18": dict(
-  text="Partial (nesting clause is search only). Theorems for all inputs: splitRing conserves directed edges and signed area (up to the documented whole-ring reversal), dedupeInnersOuters deletes only cancelling shell/hole pairs, per-level assembly conserves edges modulo such pairs, kmpDeduplicate returns a subsequence, is the identity on repeat-free chains, and ON THE CLASS OF THE PROPERTY (no centre at three positions) never fails and conserves directed edges modulo cancelling pairs (C18_kmp_conserves_le2, every ring, any length); the class boundary is real (F5 at four visits). END TO END on the class, for snapLevel and every requested level of snapPolygon, all flag combinations (C18_end_to_end_edges, C18_snapPolygon_edges_are_routed_steps, C18_end_to_end_area, C18_snapPolygon_area): every cyclic edge of every returned ring is, up to direction, an edge of a routed-and-cleaned ring (the argument of kmpDeduplicate) and hence a step between consecutive centres of one routed edge (no run is merged); the doubled signed area of the returned geometry is the sum over the input rings of the area of their routed-and-cleaned rings, a ring counting negatively only under the documented whole-ring role swap and a hole that found no shell being returned as a shell; the plain equation is refuted for invalid input rings (C18_end_to_end_area_plain_refuted), and for valid polygons it additionally needs topology preservation (C01), which stays search only. Oracle on the implementation: routed-run test, nesting, exact signed-area accounting, class decided by the implementation's own routing.",
+  text="Partial (nesting clause: vertex form only, C18_nesting_vertex_partial — every hole of every returned polygon was attached because the model's ringContains answered in-or-on for one of its vertices, ringContains' boundary answer specified exactly; that the whole hole is inside needs C01 and is search only). Theorems for all inputs: splitRing conserves directed edges and signed area (up to the documented whole-ring reversal), dedupeInnersOuters deletes only cancelling shell/hole pairs, per-level assembly conserves edges modulo such pairs, kmpDeduplicate returns a subsequence, is the identity on repeat-free chains, and ON THE CLASS OF THE PROPERTY (no centre at three positions) never fails and conserves directed edges modulo cancelling pairs (C18_kmp_conserves_le2, every ring, any length); the class boundary is real (F5 at four visits). END TO END on the class, for snapLevel and every requested level of snapPolygon, all flag combinations (C18_end_to_end_edges, C18_snapPolygon_edges_are_routed_steps, C18_end_to_end_area, C18_snapPolygon_area): every cyclic edge of every returned ring is, up to direction, an edge of a routed-and-cleaned ring (the argument of kmpDeduplicate) and hence a step between consecutive centres of one routed edge (no run is merged); the doubled signed area of the returned geometry is the sum over the input rings of the area of their routed-and-cleaned rings, a ring counting negatively only under the documented whole-ring role swap and a hole that found no shell being returned as a shell; the plain equation is refuted for invalid input rings (C18_end_to_end_area_plain_refuted), and for valid polygons it additionally needs topology preservation (C01), which stays search only. Oracle on the implementation: routed-run test, nesting, exact signed-area accounting, class decided by the implementation's own routing.",
   note="Trusted: as C01; class membership via the verif hook.",
   tech=TECH + " (tie H incl. exhaustive chains); exact-arithmetic search for the nesting clause", ref="DESIGN.md 6 C18"),
  "C05": dict(
